@@ -1270,7 +1270,11 @@ func (pc *PeerConnection) SetRemoteDescription(desc SessionDescription) error {
 
 			kind := NewRTPCodecType(media.MediaName.Media)
 			direction := getPeerDirection(media)
-			if kind == 0 || direction == RTPTransceiverDirectionUnknown {
+			if direction == RTPTransceiverDirectionUnknown {
+				// RFC 3264 Section 6.1: a stream without a direction attribute is sendrecv.
+				direction = RTPTransceiverDirectionSendrecv
+			}
+			if kind == 0 {
 				continue
 			}
 
@@ -3054,7 +3058,11 @@ func (pc *PeerConnection) generateMatchedSDP(
 
 		kind := NewRTPCodecType(media.MediaName.Media)
 		direction := getPeerDirection(media)
-		if kind == 0 || direction == RTPTransceiverDirectionUnknown {
+		if direction == RTPTransceiverDirectionUnknown {
+			// RFC 3264 Section 6.1: a stream without a direction attribute is sendrecv.
+			direction = RTPTransceiverDirectionSendrecv
+		}
+		if kind == 0 {
 			continue
 		}
 
